@@ -345,11 +345,11 @@ PROPS["C09"] = {
                "points); more than FAULTS faults per outage; more than two concurrent callers; real meta scans (lookupRegion is cut)",
     "assumptions": ["(*client).lookupRegion is cut (scripted hbase:meta / ZooKeeper)", "fake region clients; sleepAndIncreaseBackoff via the repository's own override hook"],
     "jobs": [
-        {"name": "establish", "pkg": "root", "entry": "VerifEstablish", "stubs": EST_STUBS, "reach": ["re-established", "replaced-or-gone"],
+        {"name": "establish", "steps": 40000, "timeout_s": {"quick": 300, "thorough": 1500}, "pkg": "root", "entry": "VerifEstablish", "stubs": EST_STUBS, "reach": ["re-established", "replaced-or-gone"],
          "params": {"quick": {"FAULTS": 2}, "thorough": {"FAULTS": 3}}},
-        {"name": "two_callers", "pkg": "root", "entry": "VerifTwoCallers", "stubs": EST_STUBS, "reach": ["both-returned"],
+        {"name": "two_callers", "steps": 40000, "timeout_s": {"quick": 300, "thorough": 1500}, "pkg": "root", "entry": "VerifTwoCallers", "stubs": EST_STUBS, "reach": ["both-returned"],
          "preempts": {"quick": 1, "thorough": 2}, "params": {"quick": {"FAULTS": 1, "BUSY": 1}, "thorough": {"FAULTS": 1, "BUSY": 1}}},
-        {"name": "two_callers_idle", "pkg": "root", "entry": "VerifTwoCallers", "stubs": EST_STUBS, "reach": ["both-returned"],
+        {"name": "two_callers_idle", "steps": 40000, "timeout_s": {"quick": 300, "thorough": 1500}, "pkg": "root", "entry": "VerifTwoCallers", "stubs": EST_STUBS, "reach": ["both-returned"],
          "preempts": {"quick": 1, "thorough": 2}, "params": {"quick": {"FAULTS": 1, "BUSY": 0}, "thorough": {"FAULTS": 2, "BUSY": 0}}},
     ],
 }
@@ -366,7 +366,7 @@ PROPS["C04"] = {
                "region level in C11's receive jobs for the listed classes)",
     "assumptions": ["(*client).lookupRegion is cut (scripted hbase:meta / ZooKeeper)", "fake region clients; back-off via the repository's override hook"],
     "jobs": [
-        {"name": "sendrpc_faults", "pkg": "root", "entry": "VerifSendRPCFaults", "stubs": EST_STUBS, "reach": ["succeeded", "table-gone"],
+        {"name": "sendrpc_faults", "steps": 40000, "timeout_s": {"quick": 300, "thorough": 1500}, "pkg": "root", "entry": "VerifSendRPCFaults", "stubs": EST_STUBS, "reach": ["succeeded", "table-gone"],
          "preempts": {"quick": 1, "thorough": 2}, "params": {"quick": {"FAULTS": 2}, "thorough": {"FAULTS": 3}}},
     ],
 }
